@@ -414,6 +414,28 @@ def run(ctx):
                      {"name": "e", "type": {"type": "error", "name": "Err", "fields": [{"name": "code", "type": "n.Code"}, {"name": "d", "type": "Detail"}]}},
                      {"name": "again", "type": ["null", "Code"]}, {"name": "d2", "type": {"type": "array", "items": "n.Detail"}}]}))
 
+    # parsed self-recursive records whose only named type is themselves (the embedded table holds just their own name),
+    # and single-type pieces (re-parsed into a fresh dictionary below)
+    for rec_s in [
+            {"type": "record", "name": "Node", "fields": [{"name": "v", "type": "long"}, {"name": "next", "type": ["null", "Node"]}]},
+            {"type": "record", "name": "t.Tree", "fields": [{"name": "kids", "type": {"type": "array", "items": "Tree"}}, {"name": "tag", "type": "string"}]},
+            {"type": "record", "name": "M", "namespace": "a.b", "fields": [{"name": "m", "type": {"type": "map", "values": "a.b.M"}}]},
+            {"type": "record", "name": "L", "fields": [{"name": "x", "type": ["null", "int"], "default": None},
+                                                       {"name": "rest", "type": ["null", {"type": "array", "items": ["null", "L"]}], "default": None}]},
+            {"type": "error", "name": "E", "fields": [{"name": "cause", "type": ["null", "E"]}, {"name": "msg", "type": "string"}]}]:
+        schemas.append(rec_s)
+        work.append((rec_s, [], None, None))
+    for piece, parent in [
+            ({"type": "record", "name": "Leaf", "fields": [{"name": "x", "type": "int"}]},
+             {"type": "record", "name": "Top", "fields": [{"name": "l", "type": "Leaf"}, {"name": "ls", "type": {"type": "array", "items": "Leaf"}}]}),
+            ({"type": "record", "name": "n.Node", "fields": [{"name": "next", "type": ["null", "n.Node"]}]},
+             {"type": "record", "name": "n.Top", "fields": [{"name": "head", "type": ["null", "Node"]}]})]:
+        whole = copy.deepcopy(parent)
+        whole["fields"][0]["type"] = (copy.deepcopy(piece) if isinstance(parent["fields"][0]["type"], str)
+                                      else [copy.deepcopy(piece) if x != "null" else x for x in parent["fields"][0]["type"]])
+        schemas.append(whole)
+        work.append((whole, [sg.spec_fullname("", piece)[1]], [piece], parent))
+
     for c in sg.NULL_NS_CORPUS:
         if isinstance(c, dict) and c.get("type") == "record":
             schemas.append(c)
@@ -541,6 +563,18 @@ def run(ctx):
         r_parsed = ops(parsed, data, r_raw, hinted)
         r_pw = ops(pw, data, r_raw, hinted)
         compare(ctx, "raw", r_raw, "parsed", r_parsed, cs) and compare(ctx, "raw", r_raw, "piecewise", r_pw, cs)
+        # fourth form: every piece parsed, the PARSED piece parsed again into a fresh dictionary (parse_schema copies the
+        # embedded table), the parent parsed against that fresh dictionary
+        if len(pieces) == 1 or idx % 3 == 0:
+            first_d, fresh = {}, {}
+            st4 = outcome(lambda: [parse_schema(parse_schema(copy.deepcopy(x), first_d), fresh) for x in pieces] and
+                          parse_schema(copy.deepcopy(parent), fresh))
+            if st4[0] != "ok":
+                ctx.violation("corr:three-forms", dict(cs, form="pieces re-parsed into a fresh dictionary"), impl=str(st4),
+                              model="parse_schema(parsed piece, fresh) copies the piece's table; the parent parses against it",
+                              signature="C12:parse_schema:piecewise-reparsed-into-fresh-dict:rejected")
+            else:
+                compare(ctx, "raw", r_raw, "piecewise-reparsed", ops(st4[1], data, r_raw, hinted), cs)
         # C12_piecewise (theorem) on this split: where the model computes hypotheses + conclusion to true, the
         # implementation's _inline_named_schemas(piecewise parent, shared dictionary) must be, up to the markers,
         # the parse of the parent with the pieces written inline at their first use
